@@ -268,8 +268,10 @@ class Gamma:
     def story(self, n, tag="story", depth=3):
         # a story element with attributes of its own is also followed by character data (mixed content in <roCreate>
         # or in the message): text after an element belongs to that element and travels with it
-        tail = escape("after %s" % n["tok"]) if tag == "story" and isinstance(n["tok"], str) and n["tok"].startswith("a:") else ""
-        return "<%s%s>%s</%s>%s" % (tag, self.attrs(n["tok"]), self.join([self.leaf(k) for k in n["kids"]], depth), tag, tail)
+        marked = tag == "story" and isinstance(n["tok"], str) and n["tok"].startswith("a:")
+        tail = escape("after %s" % n["tok"]) if marked else ""
+        lead = escape("inside %s " % n["tok"]) if marked else ""          # character data of the container itself
+        return "<%s%s>%s%s</%s>%s" % (tag, self.attrs(n["tok"]), lead, self.join([self.leaf(k) for k in n["kids"]], depth), tag, tail)
 
     def child(self, n, depth=3):
         if n["tag"] == "story":
@@ -285,7 +287,8 @@ class Gamma:
         parts = []
         for c in ro["root"]:
             if c["tag"] == "roCreate":
-                parts.append("<roCreate%s>%s</roCreate>" % (self.attrs(c["tok"]), self.join([self.child(k) for k in ro["kids"]], 2)))
+                lead = escape("inside %s " % c["tok"]) if isinstance(c["tok"], str) and c["tok"].startswith("a:") else ""
+                parts.append("<roCreate%s>%s%s</roCreate>" % (self.attrs(c["tok"]), lead, self.join([self.child(k) for k in ro["kids"]], 2)))
             elif c["tag"] == "mosromgrmeta":
                 parts.append("<mosromgrmeta>%s</mosromgrmeta>" % self.join([self.leaf(k) for k in c["kids"]], 2))
             else:
